@@ -169,7 +169,9 @@ fn addr_any(r: &mut Rng) -> u16 {
         if r.chance(1, 2) {
             return ((window as u16) * 0x4000).wrapping_sub(1); // the word itself straddles the boundary
         }
-        return ((window as u16) * 0x4000).wrapping_sub(1).wrapping_add(r.below(3) as u16).wrapping_sub(r.below(2) as u16);
+        // ... or it begins up to five bytes below the boundary / just above it (an instruction of up to four bytes that
+        // ends exactly at the end of a window, a displacement byte or an opcode byte on either side)
+        return ((window as u16) * 0x4000).wrapping_add(r.below(8) as u16).wrapping_sub(5);
     }
     (window as u16) * 0x4000 + (r.u16() & 0x3FFF)
 }
@@ -380,7 +382,7 @@ pub fn run(args: &Args) {
             }
             init.apply(m.emu.verif_cpu());
             // the instruction: page and opcode uniform; placed only when PC is in RAM
-            if init.pc >= 0x4000 && init.pc < 0xFFF0 {
+            if init.pc >= 0x4000 {
                 // a third of the cases come from the encodings whose cycle lists put a register-derived address on the
                 // bus during internal T-states or port cycles (IR, HL, DE, BC, SP, indexed), where the contention model has
                 // the most cases per instruction
@@ -400,7 +402,7 @@ pub fn run(args: &Args) {
                     (2, 0x63), (2, 0x73), (3, 0x2A), (3, 0x22), (4, 0x2A), (4, 0x22), (0, 0xC3), (0, 0xCD), (0, 0x01), (3, 0x21),
                 ];
                 let nn = r.chance(1, 6);
-                let (page, op) = if nn { *r.pick(&NN) } else if r.chance(1, 3) { *r.pick(&SPECIAL) } else { (r.below(7), r.u8()) };
+                let (page, op) = if nn { *r.pick(&NN) } else if r.chance(1, 3) { *r.pick(&SPECIAL) } else if r.chance(1, 6) { (5 + r.below(2), r.u8()) } else { (r.below(7), r.u8()) };
                 let mut bytes: Vec<u8> = match page {
                     0 if port_cc && (op == 0xDB || op == 0xD3) => vec![op, 0xCC],
                     0 => vec![op],
@@ -417,7 +419,7 @@ pub fn run(args: &Args) {
                     bytes.push((a >> 8) as u8);
                 }
                 for (k, b) in bytes.iter().enumerate() {
-                    m.emu.verif_bus_write(init.pc + k as u16, *b);
+                    m.emu.verif_bus_write(init.pc.wrapping_add(k as u16), *b);
                 }
                 m.sync();
             }
